@@ -335,7 +335,7 @@ func (p *parser) parseMul() Expr {
 	return l
 }
 func (p *parser) parseUnary() Expr {
-	if p.isOp("-") || p.isOp("!") {
+	if p.isOp("-") || p.isOp("!") || p.isOp("*") {
 		op := p.next().s
 		return &EUn{op, p.parseUnary()}
 	}
@@ -734,6 +734,8 @@ type Env struct {
 	old    *State          // entry state for old()
 	oldEnv *Env            // entry environment
 	frame  *Frame          // for Go source variables in loop invariants
+	preSt  *State          // state at entry of the innermost cut loop (for pre())
+	preEnv *Env
 }
 
 func (e *Env) lookup(n string) (Value, bool) {
@@ -745,7 +747,7 @@ func (e *Env) lookup(n string) (Value, bool) {
 	return nil, false
 }
 func (e *Env) child() *Env {
-	return &Env{vars: map[string]Value{}, parent: e, pkg: e.pkg, old: e.old, oldEnv: e.oldEnv, frame: e.frame}
+	return &Env{vars: map[string]Value{}, parent: e, pkg: e.pkg, old: e.old, oldEnv: e.oldEnv, frame: e.frame, preSt: e.preSt, preEnv: e.preEnv}
 }
 
 func (x *Exec) resolveType(pkg *ssa.Package, name string) types.Type {
@@ -830,6 +832,13 @@ func (x *Exec) eval(st *State, env *Env, e Expr) Value {
 		return x.evalIdent(st, env, n.name)
 	case *EUn:
 		v := x.eval(st, env, n.x)
+		if n.op == "*" {
+			p, ok := v.(*Ptr)
+			if !ok || p.cell == nil {
+				fail("dereference of non-pointer in spec")
+			}
+			return x.load(st, p)
+		}
 		t, ok := v.(*Term)
 		if !ok {
 			fail("unary %s on non-scalar", n.op)
@@ -1059,11 +1068,23 @@ func (x *Exec) indexValue(st *State, v Value, i *Term) Value {
 func (x *Exec) evalBin(st *State, env *Env, n *EBin) Value {
 	switch n.op {
 	case "&&":
-		return mkAnd(x.evalBool(st, env, n.l), x.evalBool(st, env, n.r))
+		l := x.evalBool(st, env, n.l)
+		if l.isFalse() {
+			return tFalse // short circuit: the right operand may not be evaluable (nil result on an error path)
+		}
+		return mkAnd(l, x.evalBool(st, env, n.r))
 	case "||":
-		return mkOr(x.evalBool(st, env, n.l), x.evalBool(st, env, n.r))
+		l := x.evalBool(st, env, n.l)
+		if l.isTrue() {
+			return tTrue
+		}
+		return mkOr(l, x.evalBool(st, env, n.r))
 	case "==>":
-		return mkImplies(x.evalBool(st, env, n.l), x.evalBool(st, env, n.r))
+		l := x.evalBool(st, env, n.l)
+		if l.isFalse() {
+			return tTrue
+		}
+		return mkImplies(l, x.evalBool(st, env, n.r))
 	case "<==>":
 		return mkEq(x.evalBool(st, env, n.l), x.evalBool(st, env, n.r))
 	}
@@ -1376,6 +1397,67 @@ func (x *Exec) specBuiltin(st *State, env *Env, name string, args []Expr) (Value
 		}
 		tmp := env.old.fork()
 		return x.eval(tmp, env.oldEnv, args[0]), true
+	case "pre":
+		if env.preSt == nil || env.preEnv == nil {
+			fail("pre() outside a loop invariant")
+		}
+		tmp := env.preSt.fork()
+		tmp.apps = st.apps
+		tmp.ax = st.ax
+		pe := env.preEnv.child()
+		for c := env; c != nil; c = c.parent {
+			// quantified / let variables of the current clause stay visible
+			for k, v := range c.vars {
+				if _, ok := pe.vars[k]; !ok {
+					pe.vars[k] = v
+				}
+			}
+			if c.frame != nil {
+				break
+			}
+		}
+		v := x.eval(tmp, pe, args[0])
+		st.apps = tmp.apps
+		st.ax = tmp.ax
+		return v, true
+	case "nsent":
+		n := 0
+		base := 0
+		if env.old != nil {
+			base = len(env.old.log)
+		}
+		for _, ev := range st.log[base:] {
+			if ev.kind == "send" {
+				n++
+			}
+		}
+		return mkInt(int64(n)), true
+	case "sent":
+		k, ok := concreteInt(num(0))
+		if !ok {
+			fail("sent(k) needs a concrete k")
+		}
+		base := 0
+		if env.old != nil {
+			base = len(env.old.log)
+		}
+		n := 0
+		for _, ev := range st.log[base:] {
+			if ev.kind == "send" {
+				if n == k {
+					return ev.args[1], true
+				}
+				n++
+			}
+		}
+		fail("sent(%d): fewer sends on this path", k)
+	case "samecell":
+		a, ok1 := x.eval(st, env, args[0]).(*SliceV)
+		b, ok2 := x.eval(st, env, args[1]).(*SliceV)
+		if !ok1 || !ok2 {
+			fail("samecell needs slices")
+		}
+		return mkBool(a.cell != nil && a.cell == b.cell), true
 	case "isnil":
 		v := x.eval(st, env, args[0])
 		return x.isNil(v), true
